@@ -39,6 +39,9 @@
 template <class T>
 class BasicBankMap
 {
+#ifdef OPNMIDI_VERIF
+    friend struct OpnVerifAccess;
+#endif
 public:
     typedef size_t key_type;  /* the bank identifier */
     typedef T mapped_type;
